@@ -765,6 +765,23 @@ struct vsim_session {
       o << "LOAD err=" << vs_errclass(err | cvm::get_error()) << " it=" << cvm::step_absolute() << "\n";
       cvm::clear_error();
     }
+    else if (cmd == "loadbuf" || cmd == "loadstr") {
+      // the other two entry points of setup_input(): an unformatted state in a memory buffer
+      // (set_input_state_buffer, as engines with their own checkpoint files do) and a formatted one in a string
+      cvm::clear_error();
+      std::ifstream f(a[0].c_str(), std::ios::binary);
+      std::string content((std::istreambuf_iterator<char>(f)), std::istreambuf_iterator<char>());
+      int err = COLVARS_OK;
+      if (cmd == "loadbuf") {
+        std::vector<unsigned char> buf(content.begin(), content.end());
+        err |= proxy->colvars->set_input_state_buffer(buf.size(), buf.data());
+      } else {
+        proxy->input_stream_from_string("input state string", content);
+      }
+      err |= proxy->colvars->setup_input();
+      o << "LOAD err=" << vs_errclass(err | cvm::get_error()) << " it=" << cvm::step_absolute() << "\n";
+      cvm::clear_error();
+    }
     else if (cmd == "postrun") {
       cvm::clear_error();
       int err = proxy->post_run();
